@@ -347,6 +347,9 @@ class Sched:
                 self._yield(th)
                 th.state = "run"
             mark = self.marks.get(frame.f_code, {}).get(frame.f_lineno)
+            if th.in_close:
+                mark = None     # Connection.close() is one step of the model (x0), including the completion of the
+                                # still-pending requests with EOFError by _cleanup: nothing inside it is logged
             if mark is not None:
                 label, when = mark
                 if when == "pre" and label == "b0":
@@ -805,6 +808,7 @@ class LoggingDict(dict):
 
 # ------------------------------------------------------------------------------------------------ one run
 PAYLOAD_BASE = 1000
+EOF_VAL = 1
 
 
 def payload_for(seq, k=0):
@@ -886,6 +890,8 @@ class Run:
             return int(obj[1:])
         if type(obj) is tuple and obj and type(obj[0]) is tuple and obj[0]:
             return Run.payload_of(obj[0][0])
+        if isinstance(obj, EOFError):
+            return EOF_VAL          # `EOFError("connection closed")` published by _cleanup (the model's eofVal)
         if isinstance(obj, BaseException):
             try:
                 return int(obj.args[0])
@@ -1104,7 +1110,11 @@ class Run:
                     if type(ex).__name__ in ("AsyncResultTimeout", "TimeoutError"):
                         text = "timeout"
                     elif isinstance(ex, EOFError):
-                        text = "eof"
+                        cell = self.cells.get(self.current_seq(tid))
+                        if cell is not None and cell._is_ready and cell._is_exc and cell._obj is ex:
+                            text = "value:1:%d" % EOF_VAL       # the result _cleanup published, read through `value`
+                        else:
+                            text = "eof"                        # raised out of serve()
                     elif isinstance(ex, ValueError) and ex.args and isinstance(ex.args[0], int):
                         text = "value:1:%d" % ex.args[0]
                     else:
@@ -1532,6 +1542,10 @@ def stalls_of(run):
             continue
         w = e[3][0]
         c = [c for c in calls if c["tid"] == w and c["d5"] and c["d5"][0][2] < e[0]]
+        if not c and run.chan.closed:
+            # its result was completed by Connection._cleanup with EOFError("connection closed") while it sleeps on the
+            # condition: the closing thread's notify is on its way (theorem waiter_woken_after_close); not a reply hand-off
+            continue
         if not c:
             out.append(dict(tid=w, signature="C14:other:ready-without-dispatch", at=e[0]))
             continue
@@ -1718,6 +1732,8 @@ def c13_violations(run):
         if res.startswith("value:"):
             _v, e, val = res.split(":", 2)
             want = answers.get(c["seq"], [])
+            if (e, val) == ("1", str(EOF_VAL)) and run.chan.closed:
+                continue            # completed by _cleanup with EOFError("connection closed")
             if (e, val) not in [(("1" if w[0] else "0"), str(w[1])) for w in want]:
                 out.append(("C13:wrong-reply", "thread %d request %d returned %s, the peer answered %r" % (c["tid"], c["seq"], res, want)))
         elif res == "timeout":
